@@ -114,3 +114,50 @@ def unsafe_pops(fn):
                 or it in ('list(%s)' % lst, '%s.copy()' % lst, '%s[:]' % lst)
             if not safe:
                 yield lp, c, 'removes from %s while iterating forwards over it (%s): the element after each removed one is skipped' % (lst, it)
+
+
+def fancy_augassign(fn):
+    """yield (node, index text): augmented assignment through an array-valued (non-slice) index.  numpy buffers
+    `A[idx] += v`: when idx repeats an entry the update is applied once, so accumulations silently lose terms."""
+    scalar = {a.arg for a in fn.args.args + fn.args.kwonlyargs}
+    arrayish = set()
+    for n in walk_local(fn):
+        if isinstance(n, ast.For):
+            it = n.iter
+            from_range = isinstance(it, ast.Call) and (unparse(it.func) in ('range', 'enumerate', 'itertools.count', 'zip', 'reversed',
+                                                                             'itertools.product'))
+            for x in ast.walk(n.target):
+                if isinstance(x, ast.Name):
+                    scalar.add(x.id)
+        if isinstance(n, ast.comprehension):
+            for x in ast.walk(n.target):
+                if isinstance(x, ast.Name):
+                    scalar.add(x.id)
+        if isinstance(n, ast.Assign) and len(n.targets) == 1 and isinstance(n.targets[0], ast.Name):
+            v = n.value
+            if isinstance(v, ast.Call) and unparse(v.func) == 'slice':
+                arrayish.add(n.targets[0].id)
+            elif isinstance(v, ast.Call) and (unparse(v.func).startswith('np.') and unparse(v.func).split('.')[-1] in
+                                              ('array', 'arange', 'nonzero', 'where', 'argsort', 'unique', 'flatnonzero')):
+                arrayish.add(n.targets[0].id)
+            elif isinstance(v, (ast.List, ast.ListComp)):
+                arrayish.add(n.targets[0].id)
+
+    def array_valued(e):
+        if isinstance(e, ast.Slice):
+            return False  # a plain slice never repeats an index
+        if isinstance(e, ast.Name):
+            return e.id in arrayish and e.id not in scalar
+        if isinstance(e, ast.Subscript):
+            idx = e.slice.elts if isinstance(e.slice, ast.Tuple) else [e.slice]
+            return any(isinstance(i, ast.Slice) or (isinstance(i, ast.Name) and i.id in arrayish) or array_valued(i) for i in idx)
+        if isinstance(e, (ast.List, ast.ListComp)):
+            return True
+        return False
+
+    for n in walk_local(fn):
+        if isinstance(n, ast.AugAssign) and isinstance(n.target, ast.Subscript):
+            idx = n.target.slice.elts if isinstance(n.target.slice, ast.Tuple) else [n.target.slice]
+            bad = [unparse(i) for i in idx if array_valued(i)]
+            if bad:
+                yield n, ', '.join(bad)
